@@ -65,10 +65,17 @@ C04Cases == {[tb |-> t, soft |-> so, signs |-> g, st |-> st, swap |-> w] :
                g \in {"ppp", "ppm", "pmp", "pmm", "mpp", "mpm", "mmp", "mmm"},
                st \in {"generic", "degenerate", "bigA", "negBmu"}, w \in {"none", "01", "02", "12"}}
 
+\* C05: ordering of the smuon soft masses x size of the smuon mixing x signs of (mu, M1, M2) x tan(beta) class
+\*      x precision goal 10^-prec x max_iterations
+C05Cases == {[ord |-> o, admix |-> a, signs |-> g, tb |-> t, prec |-> p, maxit |-> m] :
+               o \in {"LR", "RL", "close"}, a \in {"small", "large"},
+               g \in {"ppp", "ppm", "pmp", "pmm", "mpp", "mpm", "mmp", "mmm"}, t \in {"low", "mid", "high"},
+               p \in {4, 6, 8, 10}, m \in {1, 10, 1000}}
+
 VARIABLE x
 Init == x = 0
 Next == UNCHANGED x
 Spec == Init /\ [][Next]_x
 
-ASSUME JsonSerialize(IOEnv.GEN_OUT, [C18 |-> C18Cases, C06 |-> C06Cases, C07 |-> C07Cases, C15 |-> C15Opts, C16 |-> C16Sets, C19 |-> C19Scheds, C08 |-> C08Cases, C09 |-> C09Cases, C10 |-> C10Cases, C20 |-> C20Cases, C12 |-> C12Cases, C04 |-> C04Cases])
+ASSUME JsonSerialize(IOEnv.GEN_OUT, [C18 |-> C18Cases, C06 |-> C06Cases, C07 |-> C07Cases, C15 |-> C15Opts, C16 |-> C16Sets, C19 |-> C19Scheds, C08 |-> C08Cases, C09 |-> C09Cases, C10 |-> C10Cases, C20 |-> C20Cases, C12 |-> C12Cases, C04 |-> C04Cases, C05 |-> C05Cases])
 =============================================================================
